@@ -110,6 +110,7 @@ def tlc(ctx, module, cfg=None, workers=1, env=None, timeout=1800, extra=None, si
     # java is called directly (same class path as the `tlc` wrapper): -Xss given in JAVA_TOOL_OPTIONS is read too late for the MAIN thread,
     # which evaluates initial states, ASSUMEs and constant-level invariants - deep recursive operators overflowed its default stack now and then
     cmd = ["timeout", str(timeout), "java", "-Xss1g", "-XX:+UseParallelGC", "-cp", TLC_CP, "tlc2.TLC", "-workers", str(workers), "-metadir", meta, "-cleanup", "-noGenerateSpecTE",
+           "-checkpoint", "0",      # no checkpoints: the depth-first queue (StateDeque) does not support them, a run of 30 minutes died of it
            "-config", (cfg or module) + ".cfg"]
     if simulate:
         cmd += ["-simulate", simulate]
@@ -218,6 +219,40 @@ def trace_check(ctx, module, trace_path, timeout=1800, tag=None, env=None, cfg=N
         parts = [p.strip().strip('"') for p in body.split(",")]
         mism.append((int(parts[0]), parts[1:]))
     return mism
+
+
+def chunked_validate(ctx, module, trace_path, handle, chunk_bytes=100_000_000, timeout=6000, cfg=None, cut=None):
+    """Trace validation in byte-bounded chunks for traces whose events are judged one by one (or whose histories start at events
+    recognised by `cut(line)`): neither TLC's JSON reader nor this process ever holds more than one chunk.
+    handle(events, mism, part_path) is called per chunk with the parsed events and the (line, fields) pairs relative to the chunk."""
+    import glob as _glob
+    for stale in _glob.glob(trace_path + ".part*"):
+        os.remove(stale)
+    chunk_bytes = int(os.environ.get("SV_RT_CHUNK_BYTES", chunk_bytes))
+    whole = os.path.getsize(trace_path) <= chunk_bytes
+
+    def flush(lines, idx, single):
+        if not lines:
+            return
+        part = trace_path if single else "%s.part%d" % (trace_path, idx)
+        if not single:
+            with open(part, "w") as f:
+                f.writelines(lines)
+        mism = trace_check(ctx, module, part, timeout=timeout, cfg=cfg, tag="%s_%s%s" % (module, os.path.basename(trace_path), "" if single else "_%d" % idx))
+        handle([json.loads(l) for l in lines], mism, part)
+        if not single and not mism:
+            os.remove(part)
+    lines, size, idx = [], 0, 0
+    with open(trace_path, encoding="utf-8", errors="replace") as f:
+        for l in f:
+            if not l.strip():
+                continue
+            if size + len(l) > chunk_bytes and lines and (cut is None or cut(l)):
+                flush(lines, idx, False)
+                lines, size, idx = [], 0, idx + 1
+            lines.append(l)
+            size += len(l)
+    flush(lines, idx, whole and idx == 0)
 
 
 def read_trace(path):
